@@ -22,5 +22,10 @@ C03Step == ev.ev = "step" =>
     IF ~InContract(ev.before, ev.d) THEN Rep("INFO", "guarded paragraph not terminated by a blank line: not judged", "")
     ELSE StepOK(ev.before, ev.after, ev.d, ev.cfg)
          \/ Rep("VIOL", "one application of a filter directive changed more or less than the guarded rule/paragraph", [d |-> ev.d, keep |-> KeepIt(ev.d, ev.cfg)])
+\* a file built on its own (prebuild --file), when that build succeeds, is the file of the whole build: no marker
+\* left, the same bytes
+C03Single == ev.ev = "single" =>
+    /\ (ev.markers = 0 \/ Rep("VIOL", "an only/exclude marker survives in a file built on its own (--file)", ev.markers))
+    /\ (ev.alone = ev.whole \/ Rep("VIOL", "a file built on its own (--file) differs from the same file of the whole build", [whole |-> ev.whole, alone |-> ev.alone]))
 Accepted == TLCGet("stats").diameter = Len(Trace) + 1
 ==============================================================================
